@@ -13,7 +13,7 @@ class C09(Prop):
     theorems = ["EaselModel.Props.C09." + t for t in (
         "mt19937_stream", "mt19937_64_stream", "fast_stream", "reinit_replays", "reinit_reports_seed",
         "seed0_nonzero32", "seed0_nonzero64", "nonzero_seed_kept", "roll_lt", "roll_unbiased32", "roll_unbiased64",
-        "random_unit", "rand64_double_ranges", "deal_spec")] + ["EaselModel.MTP.fill_correct", "EaselModel.MTP.stream_eq_spec"]
+        "random_unit", "rand64_double_ranges", "deal_spec", "dchoose_nonzero")] + ["EaselModel.MTP.fill_correct", "EaselModel.MTP.stream_eq_spec"]
     claimed = True
     technique = "Lean 4 proof (generic in-place-refill = recurrence theorem, stream invariant by induction, roll/deal arithmetic) + exact differential correspondence of the executable model with the ASan/UBSan-built C generators"
     level_text = ("Theorems for all seeds and all stream positions: the model's MT19937 / MT19937-64 / LCG output equals the reference recurrence across any number of refills; "
@@ -49,7 +49,7 @@ class C09(Prop):
 
     def cases(self, ctx):
         rng = ctx.rng
-        n = 150 if ctx.tier == "quick" else 3000
+        n = 600 if ctx.tier == "quick" else 6000
         seeds = self.seeds32(rng)
         out = []
         for c in range(n):
